@@ -383,6 +383,9 @@ func cmdCodecs16(seed int64, n int, out, replay, tier string) {
 				cs = append(cs, c16Case(c16In{Kind: "obs", Obs: genObsIn(r), HasPred: r.Intn(2) == 0}, "structured"))
 			case 3:
 				cs = append(cs, c16Case(c16In{Kind: "obsraw", Raw: genMutatedObsMsg(r), HasPred: r.Intn(2) == 0}, "mutated-message"))
+				if r.Intn(2) == 0 { // raw byte damage: bit flips, truncation, duplicated spans, unknown-field groups
+					cs = append(cs, c16Case(c16In{Kind: "obsraw", Raw: flipBytes(r, genMutatedObsMsg(r)), HasPred: r.Intn(2) == 0}, "damaged-bytes"))
+				}
 			case 4, 5:
 				v := genWild(r, 0)
 				if v.T == "nil" {
